@@ -17,7 +17,10 @@ RxApis == {"test", "exec", "match", "search", "replace", "replaceAll", "split"}
 RxCtors == {"literal", "RegExp_str", "new_RegExp_str", "new_RegExp_regex", "RegExp_regex", "string_pattern", "lookahead_copy"}
 RxLoops == {"rx_" \o a \o "_" \o c : a \in RxApis, c \in RxCtors}
 BaseLoops == {"while", "for", "dowhile", "labelled", "recursion", "mutual", "regex_backtrack", "regex_loop", "regex_lookahead", "nested_eval_loop"}
-Loops == BaseLoops \cup RxLoops
+\* a value created by one evaluation and used by a later one on the same context, after the first one's deadline is
+\* long past on the (virtual) clock: the later evaluation has its own budget and must finish normally
+CarryLoops == {"carry_regex_literal", "carry_regex_ctor", "carry_regex_in_closure", "carry_function", "carry_string_method_regex"}
+Loops == BaseLoops \cup RxLoops \cup CarryLoops
 Places == {"top", "function", "arrow", "ctor", "cb_forEach", "cb_map", "cb_filter", "cb_reduce", "cb_reduceRight",
            "cb_some", "cb_every", "cb_find", "cb_findIndex", "cb_sort", "getter", "setter", "valueOf", "call", "apply", "bind",
            "eval", "Function", "eval_in_eval", "cb_in_cb"}
@@ -25,12 +28,14 @@ Wraps == {"bare", "try_catch", "try_finally", "try_catch_finally", "catch_loops_
 Ts == IF Quick THEN {2500} ELSE {2500, 7300}
 Mems == IF Quick THEN {0} ELSE {0, 10000000}
 QuickPick(c) == \/ c.wrap = "bare" /\ c.loop \in BaseLoops
+                \/ c.loop \in CarryLoops
                 \/ c.loop \in RxLoops /\ c.place \in {"top", "cb_map", "getter"} /\ c.wrap \in {"bare", "try_catch"} /\ ~c.finite
                 \/ c.place \in {"top", "cb_forEach", "getter", "eval"} /\ c.loop \in BaseLoops
                 \/ c.loop \in {"while", "regex_backtrack"} /\ c.place \in {"function", "cb_sort", "valueOf", "apply", "Function"}
 Cases == {c \in [loop : Loops, place : Places, wrap : Wraps, t : Ts, m : Mems, finite : BOOLEAN] :
             /\ (Quick => QuickPick(c))
             /\ (c.finite => c.wrap \in {"bare", "try_catch"} /\ c.m = 0)
+            /\ (c.loop \in CarryLoops => c.finite /\ c.place = "top" /\ c.wrap = "bare" /\ c.m = 0)
             /\ (c.loop \in RxLoops => ~c.finite /\ c.place \in {"top", "function", "cb_map", "cb_sort", "getter", "valueOf", "eval", "call"})
             /\ (c.loop \in {"recursion", "mutual"} => c.m = 0)}     \* with M set, runaway recursion ends in MemoryLimitError first (C02)
 
